@@ -354,6 +354,35 @@ func drawWireCase(t *rapid.T, o *gen.WireOpts) wireCase {
 		// that also carry fields named like the embedded struct's own fields
 		c.Target = cat.Get([]string{"EmbedMid", "EmbedPtr", "Embeds"}[gen.Uniform(t, "embedType", 3)]).Spec
 		c.Schema = drawEmbedSchema(t)
+	} else if gen.Uniform(t, "narrowArm", 14) == 0 {
+		// a table of narrow columns only (16/32-bit numbers, booleans, some of them
+		// nullable) read into plain narrow fields: a pointer-free struct of 2-22 bytes,
+		// its size rarely a multiple of 8, fields sharing machine words
+		c.Schema = ref.Schema{Kind: "record", Name: "Narrow"}
+		c.Target = spec.TypeSpec{K: "struct"}
+		for i, n := 0, gen.UniformRange(t, "narrowN", 1, 6); i < n; i++ {
+			var fs ref.Schema
+			var ft spec.TypeSpec
+			switch gen.Uniform(t, "narrowKind", 4) {
+			case 0:
+				fs, ft = ref.Prim("int"), spec.T([]string{"int32", "int16"}[gen.Uniform(t, "narrowInt", 2)])
+			case 1:
+				fs, ft = ref.Prim("float"), spec.T("float32")
+			case 2:
+				fs, ft = ref.Prim("boolean"), spec.T("bool")
+			default:
+				fs, ft = ref.Prim("long"), spec.T("int32")
+			}
+			if gen.Uniform(t, "narrowNullable", 2) == 0 {
+				if gen.Uniform(t, "narrowNullSecond", 3) == 0 {
+					fs = ref.Schema{Kind: "union", Branches: []ref.Schema{fs, ref.Prim("null")}}
+				} else {
+					fs = ref.Nullable(fs)
+				}
+			}
+			c.Schema.Fields = append(c.Schema.Fields, ref.Field{Name: fmt.Sprintf("f%d", i), Type: fs})
+			c.Target.Fields = append(c.Target.Fields, spec.FieldSpec{Go: fmt.Sprintf("F%d", i), JSON: fmt.Sprintf("f%d", i), T: ft})
+		}
 	} else if names := wireNamedTargets(); len(names) > 0 && gen.Uniform(t, "namedArm", 12) == 0 {
 		// a named struct type generated for this run (named nested structs, embedding,
 		// unexported fields, defined collection types) as the target of a file written
